@@ -3,6 +3,7 @@ package main
 // Calls: builtins, static calls (contract | handler | inline | havoc), function values, interface invokes.
 
 import (
+	"os"
 	"fmt"
 	"go/token"
 	"go/types"
@@ -82,6 +83,9 @@ func (x *Exec) callValue(fr *Frame, st *State, site ssa.Instruction, cc *ssa.Cal
 }
 
 func (x *Exec) havocCall(fr *Frame, st *State, site ssa.Instruction, sig *types.Signature, heap bool, k Kont) {
+	if os.Getenv("GOCV_TRACE_CONTRACTS") != "" {
+		fmt.Fprintf(os.Stderr, "havocCall heap=%v at %s: %s\n", heap, x.posOf(site.Pos()), site.String())
+	}
 	if heap {
 		for _, key := range st.heapKeys() {
 			st.havocMap(key)
@@ -161,6 +165,12 @@ func (x *Exec) callStatic(fr *Frame, st *State, site ssa.Instruction, callee *ss
 		h(x, fr, st, site, callee, args, k)
 		return
 	}
+	if x.tapeMode {
+		if h, ok := tapeHandlers[oname]; ok {
+			h(x, fr, st, site, callee, args, k)
+			return
+		}
+	}
 	if tc := x.cs.forFunc(x.top); tc != nil && tc.UseBody != nil {
 		if _, nm := relName(callee); tc.UseBody[nm] && x.inlinable(callee) && !x.onStack(fr, callee) {
 			x.inlined[funcName(callee)] = true
@@ -223,6 +233,9 @@ func (x *Exec) invoke(fr *Frame, st *State, site ssa.Instruction, cc *ssa.CallCo
 	goal := Not(Eq(recv.C[0], IntConst(0)))
 	x.oblige(fr, st, "nil", "invoke", site.Pos(), goal, "")
 	st.assume(goal)
+	if x.tapeMode && x.modelInvoke(fr, st, site, cc, recv, args, k) {
+		return
+	}
 	if recv.C[0].Op == "intconst" {
 		if t := typeByID(int(recv.C[0].Val.Int64())); t != nil {
 			ms := x.prog.MethodSets.MethodSet(t)
@@ -450,6 +463,9 @@ func (x *Exec) doCopy(fr *Frame, st *State, site ssa.Instruction, d, s Val, styp
 // contracts at call sites
 
 func (x *Exec) applyContract(fr *Frame, st *State, site ssa.Instruction, cname string, c *FuncContract, sig *types.Signature, callee *ssa.Function, args []Val, bindings []Val, k Kont) {
+	if os.Getenv("GOCV_TRACE_CONTRACTS") != "" {
+		fmt.Fprintf(os.Stderr, "applyContract %s\n", cname)
+	}
 	env := x.contractEnv(c, sig, callee, args, bindings)
 	pre := st.clone()
 	ce := &CEnv{x: x, st: st, old: pre, vars: env, pkg: c.Pkg, fr: fr, entryAllocW: pre.allocW}
